@@ -30,11 +30,16 @@ FILL = "FILLVALUE"
 def zip_longest_spec(slots: Tuple[int, ...], lengths: Dict[int, int]):
     """(rows, polled) of itertools.zip_longest(*[IT[s] for s in slots], fillvalue=FILL);
     ``polled`` lists every request made to a source, the final unsuccessful ones included."""
+    return _zip_longest_spec(slots, lengths)[:2]
+
+
+def _zip_longest_spec(slots: Tuple[int, ...], lengths: Dict[int, int]):
+    """... and ``order``: the requests and the hand-outs of rows in the order they happen"""
     pos = {k: 0 for k in lengths}
     its: List[Any] = list(slots)
-    rows, polled = [], []
+    rows, polled, order = [], [], []
     if not its:
-        return rows, polled
+        return rows, polled, order
     active = len(its)
     while True:
         row = []
@@ -43,16 +48,18 @@ def zip_longest_spec(slots: Tuple[int, ...], lengths: Dict[int, int]):
                 row.append(FILL)
                 continue
             polled.append(it)
+            order.append(("asks", it))
             if pos[it] < lengths[it]:
                 row.append(("item", it, pos[it]))
                 pos[it] += 1
             else:
                 active -= 1
                 if not active:
-                    return rows, polled
+                    return rows, polled, order
                 its[i] = "FILL"
                 row.append(FILL)
         rows.append(tuple(row))
+        order.append(("yields",))
 
 
 class StepOps:
@@ -347,15 +354,38 @@ class StepOps:
                 and self._resolved(node.ast.func) == "next" and self._resolved_kind(node.ast.func) in ("builtin", "stdlib"):
             # the builtin next() on an exhausted synchronous iterator raises right here, at the call
             it = self.ev.eval(node.ast.args[0], env)
+            if isinstance(it, tuple) and it[:1] == ("IT",):
+                failed = self._failing_pull(it, env)
+                if failed is not None:
+                    return failed
             if isinstance(it, tuple) and it[:1] == ("IT",) and env.get("@itpos", {}).get(it[1], 0) >= self.lengths[it[1]]:
-                self._trace(env, "poll", it[1])
+                self._pull(it, env)
                 return ("exc", "StopIteration")
+            return None
+        if node.kind in ("pull", "snext"):
+            # a source that fails when asked (fault cells): the loop does not end, the exception surfaces
+            src = self.ev.eval(node.info.get("iter"), env)
+            if self._is_iter(src):
+                return self._failing_pull(src, env)
             return None
         if node.kind == "await":
             call = node.info.get("value")
             v = env.get("@callvals", {}).get(id(call)) if isinstance(call, ast.Call) else None
             if isinstance(v, tuple) and v[:1] == ("@raise",):
                 return ("exc", v[1])
+        return None
+
+    def _failing_pull(self, it, env):
+        """does asking ``it`` now fail with something else than "exhausted"?  Then the request is carried out
+        (on ``env``) and the exception symbol returned; otherwise nothing happens (None)."""
+        if getattr(self, "fault_at", None) is None:
+            return None
+        trial = dict(env)
+        v = self._pull(it, trial)
+        if isinstance(v, tuple) and v[:1] == ("@raise",) and not _is_end(v):
+            env.clear()
+            env.update(trial)
+            return ("exc", v[1])
         return None
 
     def iter(self, node, env):
@@ -370,7 +400,7 @@ class StepOps:
         if self._is_iter(src):
             # ``async for`` over an iterator object, or a plain ``for`` over a synchronous one
             v = self._pull(src, env)
-            return STOP if isinstance(v, tuple) and v[:1] == ("@raise",) else v
+            return STOP if _is_end(v) else v
         el = self._elements(src, env)  # (a list is read live: a slot replaced during the loop is seen)
         if el is None:
             return UNKNOWN
@@ -388,6 +418,17 @@ class StepOps:
         if node.kind == "yield":
             v = self.resolve(ev.eval(node.info.get("value"), env), env)
             self._trace(env, "yield", v)
+            return
+        if node.kind == "exit_cm":
+            # leaving ``async with ScopedIter(x) as it``: the scope closes the iterator it provided
+            cm = node.info.get("cm")
+            if isinstance(cm, ast.Call) and self._resolved(cm.func) == "ScopedIter" and len(cm.args) == 1:
+                target = getattr(node.ast, "optional_vars", None)
+                it = env.get(target.id) if isinstance(target, ast.Name) else None
+                if not self._is_iter(it):
+                    it = ev.eval(cm.args[0], env)
+                if isinstance(it, tuple) and it[:1] == ("IT",):
+                    self._trace(env, "close", it)
             return
         if node.kind == "del":
             targets = node.info.get("targets") or (node.ast.targets if isinstance(node.ast, ast.Delete) else [])
@@ -434,14 +475,14 @@ class StepOps:
             it = ev.eval(call.args[0], env)
             if self._is_iter(it):
                 result = self._pull(it, env)
-                if isinstance(result, tuple) and result[:1] == ("@raise",):
+                if _is_end(result):
                     result = ev.eval(call.args[1], env) if len(call.args) == 2 else ("@raise", "StopIteration")
         elif last == "anext" and call.args and all(k.arg == "default" for k in call.keywords):
             it = ev.eval(call.args[0], env)
             if self._is_iter(it):
                 result = self._pull(it, env)
                 default = call.args[1] if len(call.args) == 2 else call.keywords[0].value if call.keywords else None
-                if isinstance(result, tuple) and result[:1] == ("@raise",) and default is not None:
+                if _is_end(result) and default is not None:
                     result = ev.eval(default, env)
         elif isinstance(f, ast.Attribute) and f.attr == "__anext__" and not call.args:
             it = ev.eval(f.value, env)
@@ -469,6 +510,10 @@ class StepOps:
             vals = dict(env.get("@callvals", {}))
             vals[id(call)] = v
             env["@callvals"] = vals
+
+
+def _is_end(v) -> bool:
+    return isinstance(v, tuple) and v[:1] == ("@raise",) and v[1:2] in (("StopAsyncIteration",), ("StopIteration",))
 
 
 def _bind(target, value, env) -> None:
@@ -536,11 +581,15 @@ def zip_longest_table(ctx, rid: str, consumption: bool = True) -> None:
         ok = oc.terminal.kind == "exit" and rows == want_rows and (taken == want_taken or not consumption)
         if ok and consumption:
             # the whole sequence of requests, the unsuccessful ones (end-of-source detections) included
-            asked = [e[1] for e in tr if e[0] == "poll"]
-            if asked != want_all:
+            asked = [("asks", e[1]) if e[0] == "poll" else ("yields",) for e in tr if e[0] in ("poll", "yield")]
+            want_order = _zip_longest_spec(slots, lengths)[2]
+            if asked != want_order:
                 ok = False
-                polled = ["asked in the order " + " ".join(f"it{k}" for k in asked)]
-                want_polled = ["asked in the order " + " ".join(f"it{k}" for k in want_all)]
+
+                def text(seq):
+                    return " ".join(f"it{e[1]}" if e[0] == "asks" else "<row>" for e in seq)
+                polled = ["sources asked and rows handed out in the order " + text(asked)]
+                want_polled = ["sources asked and rows handed out in the order " + text(want_order)]
         if not ok:
             bad += 1
             if bad <= 3:
@@ -572,6 +621,7 @@ def thorough_oracle(ctx, rid: str = "R01.T") -> None:
     ctx.rule(rid, "the zip_longest specification used by the table agrees with itertools.zip_longest of the running interpreter")
     for slots, lengths in cells():
         polled: List[int] = []
+        order: List[Any] = []
 
         class Src:
             def __init__(self, k, n):
@@ -582,16 +632,20 @@ def thorough_oracle(ctx, rid: str = "R01.T") -> None:
 
             def __next__(self):
                 polled.append(self.k)
+                order.append(("asks", self.k))
                 if self.i >= self.n:
                     raise StopIteration
                 self.i += 1
                 return ("item", self.k, self.i - 1)
 
         objs = {k: Src(k, n) for k, n in lengths.items()}
-        got = list(_it.zip_longest(*[objs[s] for s in slots], fillvalue=FILL))
-        want_rows, want_polled = zip_longest_spec(slots, lengths)
+        got = []
+        for row in _it.zip_longest(*[objs[s] for s in slots], fillvalue=FILL):
+            order.append(("yields",))
+            got.append(row)
+        want_rows, want_polled, want_order = _zip_longest_spec(slots, lengths)
         ctx.count("zip_longest_oracle_cells")
-        if got != want_rows or polled != want_polled:
+        if got != want_rows or polled != want_polled or order != want_order:
             raise AnalysisError(f"zip_longest specification disagrees with itertools for {slots} {lengths}: "
                                 f"spec {want_rows}/{want_polled}, stdlib {got}/{polled}")
     ctx.ok(rid, "itertools (stdlib)", "specification function agrees with itertools.zip_longest on every cell")
